@@ -137,6 +137,9 @@ def project(net, with_results=True, num=None):
                 r["vd"] = limbs(rr["vdot_m3_per_s"], 1e12) if "vdot_m3_per_s" in rt.columns else NAN
                 r["tf"] = limbs(rr["t_from_k"], TSCALE)
                 r["tt"] = limbs(rr["t_to_k"], TSCALE)
+                # further reported cells (gas: norm factors and end velocities; outlet temperature), compared cell by cell
+                r["gx"] = [limbs(rr[c], 1e9) if c in rt.columns else NAN for c in
+                           ("normfactor_from", "normfactor_to", "v_from_m_per_s", "v_to_m_per_s")] + [limbs(rr["t_outlet_k"], TSCALE)]
                 hc = [c for c in rt.columns if c not in THERM_COLS
                       and c not in ("deltat_k", "qext_w", "compr_power_mw")]
                 allc = [float(rr[c]) for c in hc]
@@ -148,6 +151,7 @@ def project(net, with_results=True, num=None):
                 r["hyd"] = r["th"] = r["hydall"] = "nores"
                 r["mixsig"] = ""
                 r["mf"] = r["mt"] = r["pf"] = r["pt"] = r["v"] = r["vd"] = r["tf"] = r["tt"] = NORES
+                r["gx"] = [NORES] * 5
             an["E"].append(r)
     for tbl in NODE_EL_TABLES:
         if tbl not in net or not isinstance(net[tbl], pd.DataFrame):
@@ -177,7 +181,7 @@ def build(an, fluid="water", params=None):
     params = params or {}
     net = pp.create_empty_network(fluid=fluid)
     for j in an["J"]:
-        pp.create_junction(net, pn_bar=params.get("pn", 5.0), tfluid_k=params.get("tn", 330.0),
+        pp.create_junction(net, pn_bar=params.get("pn", 5.0), tfluid_k=params.get("tn", 330.0) + params.get("tn_step", 0.0) * j["lab"],
                            height_m=j.get("h", 0), index=j["lab"], in_service=j["svc"])
     # pipes first among the branches is NOT forced: creation order is the description's order,
     # except that pipe-valves need their pipe to exist.
